@@ -75,7 +75,7 @@ def run_case(item, _retry=False) -> dict:
         out["missing"] = True
         return out
     for p in nt.prods[pidx:pidx + 1]:
-        rec = dict(label=p.label, note=p.note, runs=0, ok=0, fails=[], term=[], coord=[], scope=[], cost=[], attrs=[], notes=[], samples=[])
+        rec = dict(label=p.label, note=p.note, runs=0, ok=0, fails=[], term=[], coord=[], scope=[], cost=[], attrs=[], rescan=[], notes=[], samples=[])
         fols = {id(fs): follows_for(gx, method, nt_name, p) for fs in [p]}[id(p)]
         per = max(600 if _TIER == "quick" else 6000, BUDGET[_TIER] // max(1, len(p.flat) * len(fols))) * (12 if _retry else 1)
         depths = (1, 2) if method in SCOPE_SENSITIVE else (1,)
@@ -123,6 +123,9 @@ def run_case(item, _retry=False) -> dict:
                         ad = attr_node_diff(gx, oc)
                         if ad:
                             rec["attrs"].append((ad, text, list(fol)))
+                        rs = rescan_diff(gx, oc)
+                        if rs:
+                            rec["rescan"].append((rs, text, list(fol)))
                         cd = cost_diff(gx, method, oc)
                         if cd:
                             rec["cost"].append((cd, text, list(fol)))
@@ -224,6 +227,16 @@ def shared_node_diff(gx, oc):
     return None
 
 
+def rescan_diff(gx, oc):
+    """C16: within one invocation every token is looked at speculatively (consumed and given back) at most once; a second
+    speculative pass over the same tokens makes the look-ahead quadratic in its own nesting."""
+    worst = [(i, c) for i, c in oc.run.spec_count.items() if c > 1]
+    if worst:
+        i, c = max(worst, key=lambda x: x[1])
+        return f"token {i} ({oc.run.describe(i)}) is scanned speculatively {c} times by one invocation"
+    return None
+
+
 def attr_node_diff(gx, oc):
     """C14 (show prints one line per node): a field listed in attr_names holds plain values, never a node or a list
     containing a node - checked on every node the invocation builds."""
@@ -277,11 +290,36 @@ def cost_diff(gx, method, oc):
     return worst
 
 
+def _decl_names(gx, res):
+    A = gx.c_ast
+    out = []
+    for d in res if isinstance(res, list) else []:
+        if isinstance(d, A.Typedef) and d.name:
+            out.append((d.name, True))
+        elif isinstance(d, A.Decl) and d.name:
+            out.append((d.name, False))
+        elif isinstance(d, A.FuncDef) and d.decl.name:
+            out.append((d.decl.name, False))
+    return out
+
+
 def scope_diff(gx, method, oc, follow):
     want = expected_registrations(gx, method, oc, follow)
     got = list(oc.run.registrations)
+    # names whose registration is the duty of a callee under contract (a stubbed declaring method): its own scope
+    # obligation covers them
+    by_callee = []
+    for (name, n, _, _) in oc.run.stub_calls:
+        if name in DECLARING:
+            v = oc.run.snap.get(id(n))
+            if callable(v):
+                v = oc.run.applied_by.get(id(n))
+            by_callee += _decl_names(gx, v)
+    for x in by_callee:
+        if x in want:
+            want.remove(x)
     if got != want:
-        return f"names entered into the scope stack: {got}; C scoping requires {want}"
+        return f"names entered into the scope stack: {got}; C scoping requires {want}" + (f" (callees register {by_callee})" if by_callee else "")
     return None
 
 
@@ -438,6 +476,8 @@ def to_obligations(gx, recs: List[dict], families: List[str], prefix: str) -> co
                     bad = p["cost"]
                 elif fam == "attrs":
                     bad = p["attrs"]
+                elif fam == "rescan":
+                    bad = p["rescan"]
                 else:
                     raise ValueError(fam)
                 name = f"{prefix}/{fam}/{base}"
